@@ -9,7 +9,7 @@
    CallError | ConnClosed | ServerStops | ProcessDies | Broken.
 
    The full claim C11_contained is proved below for every applicable cell of 7 transports x
-   2 sides x pool off/on x 14 fault classes.  (On the tree as first pinned it was refuted for
+   2 sides x pool off/on x 15 fault classes.  (On the tree as first pinned it was refuted for
    eight cells; they were repaired in /repo by 6fc72b7, 363c1a3 and 7f6e14b, their replays are
    kept in corpus/C11-*.json and must now show a contained fault.) *)
 From Coq Require Import String List Bool NArith.
@@ -54,9 +54,9 @@ Print Assumptions C11_recover_depth.
 
 (* ------------------------------------------------------------------ the cell space *)
 
-(* the bound: every cell of the type is in the enumerated product of 7 x 2 x 2 x 14 *)
+(* the bound: every cell of the type is in the enumerated product of 7 x 2 x 2 x 15 *)
 Theorem C11_cells_bound :
-  length all_cells = (7 * 2 * 2 * 14)%nat /\ (forall c : cell, In c all_cells) /\
+  length all_cells = (7 * 2 * 2 * 15)%nat /\ (forall c : cell, In c all_cells) /\
   (forall c, In c cells <-> applicable c = true).
 Proof. exact (conj all_cells_length (conj all_cells_complete cells_spec)). Qed.
 Print Assumptions C11_cells_bound.
@@ -139,10 +139,18 @@ Theorem C11_error_formatting_runs_outside_recover :
 Proof. exact format_phase_unprotected. Qed.
 Print Assumptions C11_error_formatting_runs_outside_recover.
 
+(* Since 5f07f22 PanicError.Error and .String run under a deferred recover of their own: the
+   formatting is total for EVERY value, also for one whose Error() panics with a value whose
+   Error() panics again (fmt re-panics on those; net/http itself dies of them). *)
+Theorem C11_panic_error_formatting_total :
+  format_total table = true /\ (forall t f, format_total t = true -> format_safe t f = true).
+Proof. exact (conj format_total_ok format_total_safe). Qed.
+Print Assumptions C11_panic_error_formatting_total.
+
 Theorem C11_hostile_value_verdict : forall t c g1 g2,
   behaviour_of c = Panics g1 -> format_phase c = Some g2 ->
   contained (panic_verdict t g1) = true ->
-  verdict_of t c = if format_shielded t then panic_verdict t g1 else panic_verdict t g2.
+  verdict_of t c = if format_safe t (c_fault c) then panic_verdict t g1 else panic_verdict t g2.
 Proof. exact hostile_rests_on_shielding. Qed.
 Print Assumptions C11_hostile_value_verdict.
 
@@ -167,7 +175,7 @@ Print Assumptions C11_udp_limit.
 
 (* ------------------------------------------------------------------ the property *)
 
-(* EVERY fault cell — 7 transports x {server, client} x pool off/on x 14 fault classes, as far
+(* EVERY fault cell — 7 transports x {server, client} x pool off/on x 15 fault classes, as far
    as the combination exists — has the effect of an error for that call or the loss of that
    one connection: never the end of a serve loop, never the end of the process. *)
 Theorem C11_contained : forall c : cell,
@@ -229,7 +237,16 @@ Example decode_panic_stack :
   on_unprotected_goroutine (mk TMock Server false FDecodePanic) = true.
 Proof. vm_compute. repeat split; reflexivity. Qed.
 
-Example cell_counts : length cells = 148%nat /\ length known_escapes = 0%nat.
+(* the hostile classes are real cells, stopped where an ordinary service panic is *)
+Example hostile_cells :
+  applicable (mk TMock Server false FNestedHostilePanic) = true /\
+  verdict_of table (mk TMock Server false FNestedHostilePanic) = CallError /\
+  verdict_of table (mk TUdp Server true FNestedHostilePanic) = CallError /\
+  verdict_of table (mk TFastHttp Client false FNestedHostilePanic) = CallError /\
+  format_safe table FNestedHostilePanic = true.
+Proof. vm_compute. repeat split; reflexivity. Qed.
+
+Example cell_counts : length cells = 166%nat /\ length known_escapes = 0%nat.
 Proof. vm_compute. split; reflexivity. Qed.
 
 (* the guard of C11_goroutine_entries_partial is met by the goroutines that face the peers *)
